@@ -71,14 +71,76 @@ class Self_:
     debug_mode = False
 
 
+_CUR = {}
+
+
 def make_self(env, cls, fns):
-    """build the model instance state by executing the real change_args of the class (super() stubbed)"""
-    S = Self_()
+    """build the model instance state by executing the real change_args of the class on a fresh instance"""
+    class Inst(Self_):
+        def change_args(self, a):
+            return fns['%s.change_args' % cls](self, a)
+    S = Inst()
     S.expected_num_args = len(ARGNAMES.get(cls, []))
     if cls in ARGNAMES:
-        args = tuple(getattr(env, a) for a in ARGNAMES[cls])
-        fns['%s.change_args' % cls](S, args)
+        _CUR['S'] = S
+        S.change_args(tuple(getattr(env, a) for a in ARGNAMES[cls]))
     return S
+
+
+def make_self_lifecycle(env, cls, fns):
+    """the instance state through the REAL life cycle of the class: its own __init__ (which reaches change_args through RheologyModelBase.__init__) with one set of parameters, then the
+    public re-parameterisation change_args(new parameters)"""
+    class Inst(Self_):
+        def change_args(self, a):
+            return fns['%s.change_args' % cls](self, a)
+    S = Inst()
+    _CUR['S'] = S
+    first = tuple(Q.sym(a + '_at_construction') for a in ARGNAMES[cls])
+    if 'alpha' in ARGNAMES[cls]:
+        atoms.declare_angle(('PI', 'alpha_at_construction'), Fr(1, 2), 'circle')
+    fns['%s.__init__' % cls](S, first)
+    S.change_args(tuple(getattr(env, a) for a in ARGNAMES[cls]))
+    return S, first
+
+
+def job_lifecycle(cls):
+    """re-parameterising an existing model instance leaves exactly the state of a fresh instance built with the new parameters (no constant cached from the construction-time parameters
+    survives): every attribute the two routes set is compared"""
+    env = Env()
+    fns = load_models(env)
+    ref = make_self(env, cls, fns)
+    S, first = make_self_lifecycle(env, cls, fns)
+    A = env.pos + [a.re > 0 for a in first]
+    keys = sorted(set(k for k in list(vars(S)) + list(vars(ref)) if not k.startswith('_')))
+    results = []
+
+    def rp(md):
+        code = ("import sys, json\nimport numpy as np\nfrom TidalPy.rheology.models import %s as M\n"
+                "first, new = %r, %r\n"
+                "a = M(first); a.change_args(new); b = M(new)\n"
+                "w, mu, eta = 2.0e-5, 5.0e10, 1.0e18\n"
+                "va, vb = complex(a(w, mu, eta)), complex(b(w, mu, eta))\n"
+                "print('@@RESULT@@' + json.dumps({'re_parameterised': [va.real, va.imag], 'fresh': [vb.real, vb.imag], 'rel': abs(va - vb) / abs(vb)}))\n") % (
+                    cls, tuple(0.2 + 0.05 * i for i in range(len(first))), tuple(0.35 + 0.3 * i for i in range(len(first))))
+        import subprocess, tempfile, json
+        with tempfile.TemporaryDirectory(prefix='verif_c07_') as td:
+            p = subprocess.run([replay.VENV_PY, '-c', code], capture_output=True, text=True, cwd=td, env=dict(os.environ, PYTHONPATH=solve.REPO), timeout=600)
+        if '@@RESULT@@' not in p.stdout:
+            return True, '%s: state after __init__(first) ; change_args(new) differs from a fresh instance (current source); real replay unavailable: %s' % (cls, p.stderr[-200:])
+        out = json.loads(p.stdout.split('@@RESULT@@')[-1])
+        if out['rel'] > 1e-12:
+            return True, 'REAL %s: %s' % (cls, json.dumps(out))
+        return replay.api_or_witness([MODELS], lambda md2: (False, ''), '%s: state after __init__(first) ; change_args(new) differs from a fresh instance built with the new parameters (current source) ; real module: %s' % (cls, json.dumps(out)))(md)
+    for k in keys:
+        va, vb = getattr(S, k, None), getattr(ref, k, None)
+        if isinstance(va, (Q, int, float, Fr)) and isinstance(vb, (Q, int, float, Fr)):
+            g = eq_goal(Q.of(va), Q.of(vb))
+        else:
+            g = z3.BoolVal(va == vb if not (isinstance(va, Q) or isinstance(vb, Q)) else False)
+        results.append(discharge(Obligation('%s: attribute %s after __init__(first parameters) ; change_args(new parameters) equals that of a fresh instance built with the new parameters' % (cls, k),
+                                            g, A, replay=rp, key='%s:lifecycle' % cls)))
+    results.append(reach_twin('%s lifecycle' % cls, A))
+    return {'results': results, 'encoded': loader.ENCODED, 'axioms': CTX.axiom_notes, 'label': 'lifecycle %s' % cls}
 
 
 def load_models(env):
@@ -87,10 +149,27 @@ def load_models(env):
         names.append('%s._implementation' % c)
         if c in ARGNAMES:
             names.append('%s.change_args' % c)
+            names.append('%s.__init__' % c)
+
+    class Log:
+        def debug(self, *a, **k):
+            pass
+        error = warning = info = debug
+    base, _ = loader.load_pyx('TidalPy/rheology/base.pyx', ['RheologyModelBase.__init__', 'RheologyModelBase.change_args'], {'super': lambda: SupBase(), 'log': Log()})
+
+    class SupBase:
+        """super() inside RheologyModelBase: the extension base class keeps no rheology state"""
+        def __init__(self, *a, **k):
+            pass
 
     class Sup:
+        """super() inside a model class = RheologyModelBase, executed from the current base.pyx on the instance under construction"""
+        def __init__(self, *a, **k):
+            if a or k:
+                base['RheologyModelBase.__init__'](_CUR['S'], *a, **k)
+
         def change_args(self, a):
-            return None
+            return base['RheologyModelBase.change_args'](_CUR['S'], a)
     ns = env.ns()
     ns['super'] = lambda: Sup()
     fns, ns = loader.load_pyx(MODELS, names, ns)
@@ -490,7 +569,7 @@ def job_legacy(name):
 
 
 def main():
-    jobs = [(job_model, {'cls': c}) for c in CLASSES] + [(job_vectorize, {}), (job_lookup, {})]
+    jobs = [(job_model, {'cls': c}) for c in CLASSES] + [(job_lifecycle, {'cls': c}) for c in ARGNAMES] + [(job_vectorize, {}), (job_lookup, {})]
     jobs += [(job_legacy, {'name': n}) for n in ('off', 'elastic', 'newton', 'maxwell', 'voigt', 'burgers', 'andrade', 'sundberg')]
     meta = {
         'explanation': 'Every _implementation (and change_args) of models.pyx is transliterated from the current .pyx source and executed on symbols; the extreme-value guards are explored as paths. '
